@@ -27,6 +27,7 @@ type c09Case struct {
 	arms      []int // indices of cases, in arm order
 	forms     []int // per arm: 0 bind-and-use, 1 '_', 2 no pattern (payload cases); 0 for bare
 	deflt     bool
+	target    int // what is matched: 0 an annotated parameter, 1 the result of a call, 2 a let-bound constructor value, 3 like 2 on a generic union (instantiation inferred)
 	host      int // 0 top-level body, 1 if branch, 2 lambda body, 3 let rhs, 4 arm of outer match, 5 pipe stage, 6 block arm bodies
 	src       string
 	src2      string // second file (two-file host)
@@ -85,6 +86,10 @@ func c09Driver(maxN, hostMaxN int) func(c *explore.Chooser) *c09Case {
 		if cs.n <= hostMaxN {
 			cs.host = c.Choose(c09Hosts)
 		}
+		if cs.host == 0 && cs.n <= hostMaxN {
+			// the type of the target comes from an annotation or from inference (call result, let-bound value)
+			cs.target = c.Choose(4)
+		}
 		covered := map[int]bool{}
 		for _, a := range cs.arms {
 			covered[a] = true
@@ -107,10 +112,18 @@ func c09Render(cs *c09Case, suffix string) string {
 		sb.WriteString("package main\nimport frt\nimport slice\n\n")
 	}
 	un := "U" + suffix
-	fmt.Fprintf(&sb, "type %s =\n", un)
+	if cs.target == 3 {
+		fmt.Fprintf(&sb, "type %s<T> =\n", un)
+	} else {
+		fmt.Fprintf(&sb, "type %s =\n", un)
+	}
 	for i := 0; i < cs.n; i++ {
 		if cs.payload[i] {
-			fmt.Fprintf(&sb, "  | %s%s of int\n", c09Name(i), suffix)
+			pt := "int"
+			if cs.target == 3 {
+				pt = "T"
+			}
+			fmt.Fprintf(&sb, "  | %s%s of %s\n", c09Name(i), suffix, pt)
 		} else {
 			fmt.Fprintf(&sb, "  | %s%s\n", c09Name(i), suffix)
 		}
@@ -145,7 +158,22 @@ func c09Render(cs *c09Case, suffix string) string {
 	fn := "f" + suffix
 	switch cs.host {
 	case 0:
-		fmt.Fprintf(&sb, "let %s (u:%s) =\n  match u with\n%s", fn, un, arms("  ", false))
+		ctor0 := c09Name(0) + suffix
+		if cs.payload[0] {
+			ctor0 += " 1"
+		} else if cs.target == 3 {
+			ctor0 += "<int> ()"
+		}
+		switch cs.target {
+		case 0:
+			fmt.Fprintf(&sb, "let %s (u:%s) =\n  match u with\n%s", fn, un, arms("  ", false))
+		case 1:
+			fmt.Fprintf(&sb, "let id%s (w:%s) = w\n\nlet %s (u:%s) =\n  match id%s u with\n%s", un, un, fn, un, un, arms("  ", false))
+		case 2:
+			fmt.Fprintf(&sb, "let %s (u:%s) =\n  let v = %s\n  match v with\n%s", fn, un, ctor0, arms("  ", false))
+		case 3:
+			fmt.Fprintf(&sb, "let %s (i:int) =\n  let v = %s\n  match v with\n%s", fn, ctor0, arms("  ", false))
+		}
 	case 1:
 		fmt.Fprintf(&sb, "let %s (u:%s) =\n  if 1 < 2 then\n    match u with\n%s  else\n    0\n", fn, un, arms("    ", false))
 	case 2:
@@ -357,7 +385,7 @@ func checkC09(c *core.Ctx) {
 				if c.TooManyViolations() {
 					continue
 				}
-				if c09RunOne(c, fc, sc.PkgAllFoi(), dir, cs) && cs.n <= 3 && cs.host < 100 {
+				if c09RunOne(c, fc, sc.PkgAllFoi(), dir, cs) && cs.n <= 3 && cs.host < 100 && cs.target == 0 {
 					acceptedMu.Lock()
 					accepted = append(accepted, cs)
 					acceptedMu.Unlock()
